@@ -1159,6 +1159,11 @@ def _selected_distros_memoized(
                     head_count = h.exactly_k_times_in_n(this_outcome, n, i)
                     cumulative_p += Fraction(head_count, this_total)
 
+                    if head_count == 0:
+                        # No roll has exactly i of this_outcome (and the remaining
+                        # outcomes may well have a zero total)
+                        continue
+
                     for tail, tail_nmr8r, tail_dnmn8r in _selected_distros_memoized(
                         next_h, n - i, k - i, from_right
                     ):
